@@ -5,14 +5,19 @@
    * A label volume is its shape (list of dimension sizes, any rank) and a pixel
      function  index tuple -> label  (`px_of shape data` reads a row-major flat
      list, which is what the correspondence passes in).
-   * Coordinates, scale factors and axis maxima are rationals with denominator
-     U = 1024, stored as the numerator (so 1.0 is 1024): exact for every value the
-     generators emit.  A product coordinate*scale therefore has denominator U*U.
+   * Coordinates, scale factors and axis maxima are `xnum`: a rational with
+     denominator U = 1024, stored as the numerator (`XFin 1024` is 1.0; exact for
+     every finite value the generators emit), or one of the three IEEE tokens NaN,
+     +inf, -inf.  A finite product coordinate*scale therefore has denominator U*U.
+     `xmul` is IEEE multiplication (inf * 0 = NaN, signs), `xltb` / `xleb` the IEEE
+     comparisons (every comparison with NaN is False), `xint` is Python's int()
+     (ValueError for NaN, OverflowError for an infinity).
    * Python exceptions are `res`; `try ... except (IndexError, OverflowError)` is
      modelled by a match that handles `Err IndexError` and lets every other
      exception through.  numpy raises OverflowError instead of IndexError for an
-     index that does not fit a C long; both are out-of-bounds signals caught by
-     the same handlers, and the model writes `Err IndexError` for both.
+     index that does not fit a C long, and int(inf) raises OverflowError; both are
+     out-of-bounds signals caught by the same handlers, and the model writes
+     `Err IndexError` for both.
    * Messages are modelled by their kind and the values they name.
    Model only -- the proofs are in SegLemmas.v. *)
 From Geff Require Import Base Dtype.
@@ -20,6 +25,53 @@ Open Scope Z_scope.
 Open Scope list_scope.
 
 Definition U : Z := 1024.
+
+(* ---------- numbers: finite (numerator over U, or over U*U for a product) or an IEEE token ---------- *)
+Inductive xnum := XFin (z : Z) | XNaN | XPInf | XNInf.
+
+Definition xinf (positive : bool) : xnum := if positive then XPInf else XNInf.
+(* (+-inf) * b *)
+Definition xmul_inf (positive : bool) (b : xnum) : xnum :=
+  match b with
+  | XNaN => XNaN
+  | XFin y => if y =? 0 then XNaN else xinf (Bool.eqb positive (0 <? y))
+  | XPInf => xinf positive
+  | XNInf => xinf (negb positive)
+  end.
+(* a * b for Python ints / floats: int * float is float; NaN absorbs; inf * 0 is NaN *)
+Definition xmul (a b : xnum) : xnum :=
+  match a with
+  | XNaN => XNaN
+  | XPInf => xmul_inf true b
+  | XNInf => xmul_inf false b
+  | XFin x =>
+      match b with
+      | XFin y => XFin (x * y)
+      | XNaN => XNaN
+      | XPInf => xmul_inf true a
+      | XNInf => xmul_inf false a
+      end
+  end.
+(* a < b and a <= b: False as soon as one side is NaN *)
+Definition xltb (a b : xnum) : bool :=
+  match a, b with
+  | XNaN, _ | _, XNaN => false
+  | XFin x, XFin y => x <? y
+  | XNInf, XNInf => false
+  | XNInf, _ => true
+  | _, XNInf => false
+  | XPInf, _ => false
+  | XFin _, XPInf => true
+  end.
+Definition xleb (a b : xnum) : bool :=
+  match a, b with
+  | XNaN, _ | _, XNaN => false
+  | XFin x, XFin y => x <=? y
+  | XNInf, _ => true
+  | _, XNInf => false
+  | _, XPInf => true
+  | XPInf, XFin _ => false
+  end.
 
 Inductive msg :=
 | MMissingProp                      (* "Missing seg_id property in Zarr store" *)
@@ -54,7 +106,7 @@ Definition msg_eqb (a b : msg) : bool :=
 Definition result := (bool * list msg)%type.
 
 (* an axis of the geff metadata: is its type "time"; its `max` (None when absent) *)
-Record axis := { ax_time : bool; ax_max : option Z }.
+Record axis := { ax_time : bool; ax_max : option xnum }.
 
 Record vol := { v_shape : list nat; v_px : list Z -> Z }.
 Definition rank (v : vol) : nat := List.length (v_shape v).
@@ -151,11 +203,15 @@ Definition axes_match_seg_dims (axes : option (list axis)) (shape : list nat) : 
 
 (* ---------- graph_is_in_seg_bounds ---------- *)
 (* `scale = [1.0] * ndim` when no scale is given *)
-Definition scale_or_ones (scale : option (list Z)) (ndim : nat) : list Z :=
-  match scale with Some s => s | None => repeat U ndim end.
+Definition scale_or_ones (scale : option (list xnum)) (ndim : nat) : list xnum :=
+  match scale with Some s => s | None => repeat (XFin U) ndim end.
 
-(* for i, ax in enumerate(axes): seg_shape[i] and scale[i] are Python indexing *)
-Fixpoint bounds_loop (axes : list axis) (shape : list nat) (sc : list Z) (i : nat) : res result :=
+(* seg_shape[i] * scale[i]: a Python int times the scale factor *)
+Definition extent (n : nat) (s : xnum) : xnum := xmul (XFin (Z.of_nat n)) s.
+
+(* for i, ax in enumerate(axes): seg_shape[i] and scale[i] are Python indexing;
+   the test is `if not max_bound < seg_shape[i] * scale[i]`, so a NaN on either side is reported *)
+Fixpoint bounds_loop (axes : list axis) (shape : list nat) (sc : list xnum) (i : nat) : res result :=
   match axes with
   | [] => Ok (true, [])
   | ax :: r =>
@@ -164,7 +220,7 @@ Fixpoint bounds_loop (axes : list axis) (shape : list nat) (sc : list Z) (i : na
       | Some m =>
           match nth_error shape i, nth_error sc i with
           | Some n, Some s =>
-              if Z.of_nat n * s <=? m then Ok (false, [MAxisOob i])
+              if negb (xltb m (extent n s)) then Ok (false, [MAxisOob i])
               else bounds_loop r shape sc (S i)
           | _, _ => Err IndexError
           end
@@ -172,7 +228,7 @@ Fixpoint bounds_loop (axes : list axis) (shape : list nat) (sc : list Z) (i : na
   end.
 
 Definition graph_is_in_seg_bounds (axes : option (list axis)) (shape : list nat)
-    (scale : option (list Z)) : res result :=
+    (scale : option (list xnum)) : res result :=
   let ndim := List.length shape in
   let sc := scale_or_ones scale ndim in
   if negb (Nat.eqb (List.length sc) ndim) then Ok (false, [MScaleLen])
@@ -233,19 +289,33 @@ Definition has_seg_ids_at_time_points (v : vol) (tps ids : list Z)
   tp_loop v (time_index metadata) tps ids tps [] false.
 
 (* ---------- has_seg_ids_at_coords ---------- *)
-(* int(x) for x = p / (U*U): truncation toward zero *)
+(* int(x) for a finite x = p / (U*U): truncation toward zero *)
 Definition trunc (p : Z) : Z := Z.quot p (U * U).
 
-Definition coord_value (v : vol) (coord sc : list Z) : res Z :=
+(* int(c): ValueError for NaN; OverflowError for an infinity, written Err IndexError (see above) *)
+Definition xint (c : xnum) : res Z :=
+  match c with
+  | XFin p => Ok (trunc p)
+  | XNaN => Err ValueError
+  | XPInf | XNInf => Err IndexError
+  end.
+
+(* the body of the try block: the scaled coordinate, `if any(not c >= 0 for c in scaled_coord): raise
+   IndexError`, then tuple(int(c) for c in scaled_coord) -- built completely, first failure wins --
+   and only then the indexing *)
+Definition coord_value (v : vol) (coord sc : list xnum) : res Z :=
   match zip_strict coord sc with
   | Err e => Err e
   | Ok ps =>
-      let scaled := map (fun p => fst p * snd p) ps in
-      if existsb (fun c => c <? 0) scaled then Err IndexError
-      else np_getitem v (map trunc scaled)
+      let scaled := map (fun p => xmul (fst p) (snd p)) ps in
+      if existsb (fun c => negb (xleb (XFin 0) c)) scaled then Err IndexError
+      else match mapM xint scaled with
+           | Err e => Err e
+           | Ok idx => np_getitem v idx
+           end
   end.
 
-Fixpoint coords_loop (v : vol) (sc : list Z) (pairs : list (list Z * Z)) (k : nat)
+Fixpoint coords_loop (v : vol) (sc : list xnum) (pairs : list (list xnum * Z)) (k : nat)
     (missing : bool) : res result :=
   match pairs with
   | [] => Ok (negb missing, [])
@@ -258,8 +328,8 @@ Fixpoint coords_loop (v : vol) (sc : list Z) (pairs : list (list Z * Z)) (k : na
            end
   end.
 
-Definition has_seg_ids_at_coords (v : vol) (coords : list (list Z)) (ids : list Z)
-    (scale : option (list Z)) : res result :=
+Definition has_seg_ids_at_coords (v : vol) (coords : list (list xnum)) (ids : list Z)
+    (scale : option (list xnum)) : res result :=
   if negb (Nat.eqb (List.length coords) (List.length ids)) then Ok (false, [MCoordLen])
   else
     let sc := scale_or_ones scale (rank v) in
